@@ -210,7 +210,7 @@ def run(tier: str, seed: int, t0: float) -> int:
                 out.append(Violation(v[4:], api[e["ev"]], detail, {"schema": bb.schema_js["name"], "doc": d, "event": e}, sig))
     for key, least in (("Resolve:ok", 1000), ("Pair:ok", 1000), ("Walk:ok", 500), ("NodeAt:ok", 1000), ("astral:ok", 50)):
         if stats.counts.get(key, 0) < least:
-            raise core.MachineryError(f"vacuity gate: {key}={stats.counts.get(key, 0)} < {least}")
+            core.vacuity(out, f"vacuity gate: {key}={stats.counts.get(key, 0)} < {least}")
     return core.finish("C09", tier, seed, stats, out, t0,
                        rule="(document, position) for every ResolvedPos accessor and lookup; (document, position pair) for shared depth, block range, "
                             "marks across, range-has-mark, nodes_between (with pruning) and text_between (with separators / leaf text); documents: all "
